@@ -130,10 +130,25 @@ CHECKS = {
              "forbidden effects and are not flagged.",
         design_ref="DESIGN.md section 3, C24",
     ),
+    "C25": dict(
+        engine="worldsim",
+        category="exploration",
+        technique="bounded liveness in simulated time: the real sandboxed binary under a step monitor (hook H2), with "
+                  "stalled / loaded / closed stdin and resource caps; the clock is the evaluator's tick counter",
+        text="25 families of non-terminating and resource-hungry programs with seeded sizes, as playground runs and as "
+             "sandboxed test bodies. During the run the monitor checks that ticks advance by exactly one per step and the "
+             "frame depth stays within the limit; afterwards: the process exited by itself (no signal, no panic), printed "
+             "a well-formed result, a non-terminating program ended in a resource-limit error or sandbox refusal, the "
+             "number of executed steps is within the 100 000 budget, no read(0) is outstanding, and CPU time is within "
+             "100x a tick-limited empty loop (confirmed twice).",
+        note="Memory is capped at 1.5 GB per child; the quadratic memory use of deep value nesting is a known finding. "
+             "Programs exponential in memory are not generated.",
+        design_ref="DESIGN.md section 3, C25",
+    ),
 }
 
 PENDING = {p: "claimed in DESIGN.md; its check is not built yet, so nothing is claimed for it in this manifest"
-           for p in ["C25", "C26", "C28"]}
+           for p in ["C26", "C28"]}
 
 NOT_APPLICABLE = {
     "C01": "lex/parse/check never crash: a pure function of one source string; no schedule, clock, fault or history to simulate (fuzzing territory)",
